@@ -36,6 +36,27 @@ CLAIMS = {
         note=NOTE_BASE,
         technique="static analysis: guard-sequence extraction from MIR + decision table",
     ),
+    "C04": dict(
+        category="other",
+        text="Static soundness conditions of the unsafe re-typing behind NaN removal for all 14 element types: stride/pointer/length "
+             "provenance of every from_shape_ptr (R2), size/align asserts dominating the pointer cast, repr(transparent) + private field of "
+             "NotNone, audited inventory of every unsafe block/fn tied to its justifying guard (R3), NotNone only built from values known "
+             "Some (R11), no randomness in maybe_nan (R14). Decides aliasing/validity ('the returned view aliases only memory of the input', "
+             "'not-NaN typed values really are not NaN/None', determinism); does not decide the compaction's loop invariant or idempotence.",
+        design_ref="DESIGN.md §4 C04",
+        note=NOTE_BASE,
+        technique="static analysis: provenance + dominance rules over MIR, unsafe inventory from HIR",
+    ),
+    "C03": dict(
+        category="proof",
+        text="Static proof of an effect discipline sufficient for 'in-place routines only permute their lanes': over the call graph "
+             "reachable from the mutating entry points, every use of a caller-owned mutable array handle is ArrayBase::swap, a re-view, a "
+             "traversal whose closure is checked, a checked family member, the audited raw helper (R2) or the user's callback; no store "
+             "through an element reference of caller data. Conservative: a clone-and-assign rewrite would be flagged.",
+        design_ref="DESIGN.md §4 C03",
+        note=NOTE_BASE,
+        technique="static analysis: effect/ownership discipline over the MIR call graph",
+    ),
 }
 
 PENDING = "not yet claimed in this revision: the static rule set for it is still being implemented (see DESIGN.md §8); no check is registered rather than a weak one"
